@@ -12,7 +12,7 @@ import re
 
 from . import build
 
-PATH = os.path.join(build.VERIF, "known_findings.txt")
+PATH = os.environ.get("VERIF_KNOWN_FINDINGS") or os.path.join(build.VERIF, "known_findings.txt")  # (the override is a development aid)
 _RX = re.compile(r"^known:\s+property=(\S+)\s+signature=(\S+)\s+(.*)$")
 
 
